@@ -367,6 +367,11 @@ def r_store_head(ck: Checker) -> None:
            "the translation map has no slot for such an argument: a later use of the predicate in an objective hits `assert isinstance(arg, AST)` and optimize aborts (C03)")
     rv = func.params()[3]
     mv = func.params()[4]
+    md = single_def(func, "mapping")
+    want_m = f"[({rv} + [{mv}]).index(arg) if arg in {rv} + [{mv}] else None for arg in {sym}.arguments]"
+    okm = md is not None and any(same(t, want_m) for t in {unparse(md)} | set(ck.interp(func).texts(site, md)))
+    ck.add("mapping[i] = position of the i-th head argument in the new predicate", okm, func, site, f"mapping = `{short(unparse(md), 150) if md is not None else None}`",
+           "TranslationMap.translate_parameters puts old argument i at position mapping[i]: the inverse permutation sends the arguments of `best(P,T,D,X)` to the wrong chain positions")
     ck.guard("every argument of the new result predicate occurs in the head", func, site, f"not any(var not in {sym}.arguments for var in {rv} + [{mv}])",
              "`mx(X) :- X = #max{V : skill(P,V)}, person(P).` drops the group P: an atom mx(X) cannot be translated to __max(P,X), and a later use in an objective or a sum fails an assertion (C03)")
     ck.guard("the head predicate is derived by this rule only", func, site, f"len(self.rule_dependency.get_bodies(Predicate({sym}.name, len({sym}.arguments)))) == 1",
@@ -380,8 +385,8 @@ RULES = [
     Rule("C12.chain-guards", P + ("C20",), r_chain_guards),
     Rule("C12.TABLE.replacement", P, r_replacement_table),
     Rule("C12.char-vars", PG, r_char_vars),
-    Rule("C12.G.minimize", PG, r_g_minimize),
-    Rule("C12.G.sum-element", PG, r_g_sum),
+    Rule("C12.G.minimize", PG, r_g_minimize, extra={"C04": ("G2 the weight is the min/max result argument",)}),
+    Rule("C12.G.sum-element", PG, r_g_sum, extra={"C04": ("G2 the weight is the min/max result argument",)}),
     Rule("C12.create-replacement", PG, r_create_replacement),
     Rule("C12.store-head", PG + ("C06", "C03"), r_store_head),
     Rule("C12.oldmax", PG, r_oldmax),
